@@ -125,8 +125,7 @@ def main(pid, argv):
         ck.count("chunks:" + ("1" if f[0].count(",") == 0 else "2-4" if f[0].count(",") < 4 else ">4"))
         if bad:
             nf += 1
-            if nf <= 3:
-                ck.fail("wire-ops", c if len(c) < 3000 else c[:3000], bad, impl=il[:300], model=ml[:300])
+            ck.fail("wire-ops", c if len(c) < 3000 else c[:3000], bad, impl=il[:300], model=ml[:300])
         elif il != ml:
             ck.tie_broken("per-operation results differ", c[:300], il[:200], ml[:200])
     for c, il in list(zip(cases, impl))[:: max(1, len(cases) // 5)]:
